@@ -69,7 +69,8 @@ PARTIALS = [
         ["rho(770)0", "P", None, [leaf("pi-"), leaf("pi+")]],
     ],
 ]
-COUPLINGS = [("1.0", "0.0"), ("0.5", "2.0"), ("0.36", "-1.99"), ("2", "3.14159"), ("0", "1"), ("-2.6", "0.5"), ("1e-1", "-3E-1"), ("0.7", "5.5"), ("1.2", "-4.0")]
+# the default coupling must not be degenerate (1*exp(0i) == 1+0i would hide a polar/cartesian mix-up)
+COUPLINGS = [("0.5", "2.0"), ("1.0", "0.0"), ("0.36", "-1.99"), ("2", "3.14159"), ("0", "1"), ("-2.6", "0.5"), ("1e-1", "-3E-1"), ("0.7", "5.5"), ("1.2", "-4.0")]
 PARAMS = [["D0_radius", "2", "0.0037559", "0"], ["IS_p1_pipi", "2", "0.22889", "0"], ["f_scatt1", "0", "-0.5", "1e-2"], ["s0_prod", "2", "-0.07", "0"]]
 CONSTS = [["a(1)(1260)+::Spline::Min", "0.18412"], ["a(1)(1260)+::Spline::N", "40"], ["K(1)(1270)bar-::Spline::Max", "3"]]
 
@@ -123,6 +124,59 @@ def gen(c):
     elif layout == "indented":
         ast = [["Raw", "  \t" + ampgen.render_stmt(st) + "   "] for st in ast]
     return {"ast": ast, "crlf": layout == "crlf"}
+
+
+# ---- complete family of expansion shapes -----------------------------------------------------------
+def expansion_shapes():
+    """Every combination of 0..3 alternative sub-lines for the names that occur as undecayed daughters, over tops in
+    which one name occurs twice, in two different positions, and below another substituted name."""
+    rho_alts = [["rho(770)0", None, None, [leaf("pi+"), leaf("pi-")]], ["rho(770)0", "P", None, [leaf("pi-"), leaf("pi+")]],
+                ["rho(770)0", None, "GSpline.EFF", [leaf("pi+"), leaf("pi-")]]]
+    a1_alts = [["a(1)(1260)+", None, None, [leaf("rho(770)0"), leaf("pi+")]], ["a(1)(1260)+", "D", None, [leaf("rho(770)0"), leaf("pi+")]],
+               ["a(1)(1260)+", None, "GSpline.EFF", [["PiPi00", None, "kMatrix.pole.1", [leaf("pi+"), leaf("pi-")]], leaf("pi+")]]]
+    kst_alts = [["K*(892)bar0", None, None, [leaf("K-"), leaf("pi+")]], ["K*(892)bar0", None, "FOCUS.Kpi", [leaf("K-"), leaf("pi+")]]]
+    k1_alts = [["K(1)(1270)bar-", None, None, [leaf("rho(770)0"), leaf("K-")]], ["K(1)(1270)bar-", "D", "GSpline.EFF", [leaf("rho(770)0"), leaf("K-")]],
+               ["K(1)(1270)bar-", None, None, [leaf("K*(892)bar0"), leaf("pi-")]]]
+    fams = [
+        (2, [["D0", None, None, [leaf("rho(770)0"), leaf("rho(770)0")]]], [rho_alts]),
+        (2, [["D0", None, None, [leaf("a(1)(1260)+"), leaf("pi-")]], ["D0", "D", None, [leaf("rho(770)0"), leaf("rho(770)0")]]], [a1_alts, rho_alts]),
+        (0, [["D0", None, None, [leaf("K*(892)bar0"), leaf("rho(770)0")]]], [kst_alts, rho_alts]),
+        (0, [["D0", None, None, [leaf("K(1)(1270)bar-"), leaf("pi+")]], ["D0", "P", None, [leaf("rho(770)0"), leaf("K*(892)bar0")]]], [k1_alts, rho_alts, kst_alts]),
+    ]
+    import itertools as _it
+    for ev, tops, pools in fams:
+        for counts in _it.product(*[range(len(p) + 1) for p in pools]):
+            for order in ("tops-first", "partials-first"):
+                parts = [alt for pool, n in zip(pools, counts) for alt in pool[:n]]
+                yield {"ev": ev, "tops": tops, "parts": parts, "order": order}
+
+
+def shape_scenario(sh):
+    def line(t, j):
+        a, b = COUPLINGS[j % len(COUPLINGS)]
+        return ["Line", t, ["0", a, "0.1"], ["2", b, "0.2"]]
+    tl = [line(t, j) for j, t in enumerate(sh["tops"])]
+    pl = [line(t, j + 2) for j, t in enumerate(sh["parts"])]
+    body = pl + tl if sh["order"] == "partials-first" else tl + pl
+    ast = [["EventType", EVENT_TYPES[sh["ev"]]]] + body
+    return {"ast": ast, "crlf": False}
+
+
+def check_shape(sh):
+    sc = shape_scenario(sh)
+    text = text_of(sc)
+    obs = run_forked(observe, text)
+    return compare(ampgen.semantics(sc["ast"]), obs, text)
+
+
+def work_shapes(items):
+    fails, outs = [], set()
+    for sh in items:
+        f = check_shape(sh)
+        for s_, d in f:
+            fails.append(("shape", sh, s_, d, len(sh["parts"])))
+        outs.add("F" if f else short_hash(sh))
+    return {"fails": fails, "outcomes": outs, "traces": len(items)}
 
 
 def text_of(sc):
@@ -216,6 +270,8 @@ def check_choices(choices, memo=True):
 
 def exec_case(kind, payload):
     isolate.warm(sorted(ampgen.PID))
+    if kind == "shape":
+        return check_shape(payload)
     return check_choices(tuple(payload["choices"]))
 
 
@@ -259,6 +315,12 @@ def run(ctx):
     ctx.rng.shuffle(items)
     for r in pmap(work, [items[i:i + 12] for i in range(0, len(items), 12)], ctx.workers):
         ctx.absorb(r)
+    shapes_ = list(expansion_shapes())
+    ctx.log(f"{len(shapes_)} expansion shapes (0..3 alternatives per undecayed name, repeated names), complete")
+    for r in pmap(work_shapes, [shapes_[i:i + 6] for i in range(0, len(shapes_), 6)], ctx.workers):
+        ctx.absorb(r)
+    ctx.count(states=len(shapes_), transitions=sum(len(x["parts"]) + len(x["tops"]) for x in shapes_))
+    ctx.part("expansion-shapes", cases=len(shapes_), complete=True)
     small = [ch for ch, nd in items if nd <= 1][: (None if ctx.thorough else 24)]
     for r in pmap(work_nomemo, [small[i:i + 2] for i in range(0, len(small), 2)], ctx.workers):
         ctx.absorb(r)
